@@ -6,6 +6,18 @@
 
 namespace Fastor {
 
+namespace internal {
+// The lanes of __m128i/__m256i/__m512i are "long long"; peeking at them through a plain
+// int32_t* violates strict aliasing (and gets miscompiled at -O2), so lane access goes
+// through this may_alias type instead
+#if defined(__GNUC__) || defined(__clang__)
+typedef int32_t __attribute__((__may_alias__)) int32_lane_t;
+#else
+typedef int32_t int32_lane_t;
+#endif
+}
+
+
 
 // AVX512 VERSION
 //-----------------------------------------------------------------------------------------------
@@ -72,7 +84,7 @@ struct SIMDVector<int32_t,simd_abi::avx512> {
         value = _mm512_setzero_si512();
         for (FASTOR_INDEX i=0; i<Size; ++i) {
             if (maska[i] == -1) {
-                ((scalar_value_type*)&value)[Size - i - 1] = a[Size - i - 1];
+                ((internal::int32_lane_t*)&value)[Size - i - 1] = a[Size - i - 1];
             }
         }
         unused(Aligned);
@@ -90,15 +102,15 @@ struct SIMDVector<int32_t,simd_abi::avx512> {
         mask_to_array(mask,maska);
         for (FASTOR_INDEX i=0; i<Size; ++i) {
             if (maska[i] == -1) {
-                a[Size - i - 1] = ((const scalar_value_type*)&value)[Size - i - 1];
+                a[Size - i - 1] = ((const internal::int32_lane_t*)&value)[Size - i - 1];
             }
         }
         unused(Aligned);
 #endif
     }
 
-    FASTOR_INLINE int32_t operator[](FASTOR_INDEX i) const {return reinterpret_cast<const int32_t*>(&value)[i];}
-    FASTOR_INLINE int32_t operator()(FASTOR_INDEX i) const {return reinterpret_cast<const int32_t*>(&value)[i];}
+    FASTOR_INLINE int32_t operator[](FASTOR_INDEX i) const {return reinterpret_cast<const internal::int32_lane_t*>(&value)[i];}
+    FASTOR_INLINE int32_t operator()(FASTOR_INDEX i) const {return reinterpret_cast<const internal::int32_lane_t*>(&value)[i];}
 
     FASTOR_INLINE void set(int32_t num) {
         value = _mm512_set1_epi32(num);
@@ -181,7 +193,7 @@ struct SIMDVector<int32_t,simd_abi::avx512> {
     }
 
     FASTOR_INLINE int32_t minimum() {
-        int32_t *vals = (int32_t*)&value;
+        const internal::int32_lane_t *vals = (const internal::int32_lane_t*)&value;
         int32_t quan = vals[0];
         for (FASTOR_INDEX i=0; i<Size; ++i)
             if (vals[i]<quan)
@@ -189,7 +201,7 @@ struct SIMDVector<int32_t,simd_abi::avx512> {
         return quan;
     }
     FASTOR_INLINE int32_t maximum() {
-        int32_t *vals = (int32_t*)&value;
+        const internal::int32_lane_t *vals = (const internal::int32_lane_t*)&value;
         int32_t quan = vals[0];
         for (FASTOR_INDEX i=0; i<Size; ++i)
             if (vals[i]>quan)
@@ -349,7 +361,7 @@ FASTOR_INLINE SIMDVector<int32_t,simd_abi::avx512> abs(const SIMDVector<int32_t,
     out.value = _mm512_abs_epi32(a.value);
 #else
     for (FASTOR_INDEX i=0UL; i<16UL; ++i) {
-       ((int32_t*)&out.value)[i] = std::abs(((int32_t*)&a.value)[i]);
+       ((internal::int32_lane_t*)&out.value)[i] = std::abs(((const internal::int32_lane_t*)&a.value)[i]);
     }
 #endif
     return out;
@@ -424,7 +436,7 @@ struct SIMDVector<int32_t,simd_abi::avx> {
         value = _mm256_setzero_si256();
         for (FASTOR_INDEX i=0; i<Size; ++i) {
             if (maska[i] == -1) {
-                ((scalar_value_type*)&value)[Size - i - 1] = a[Size - i - 1];
+                ((internal::int32_lane_t*)&value)[Size - i - 1] = a[Size - i - 1];
             }
         }
         unused(Aligned);
@@ -442,15 +454,15 @@ struct SIMDVector<int32_t,simd_abi::avx> {
         mask_to_array(mask,maska);
         for (FASTOR_INDEX i=0; i<Size; ++i) {
             if (maska[i] == -1) {
-                a[Size - i - 1] = ((const scalar_value_type*)&value)[Size - i - 1];
+                a[Size - i - 1] = ((const internal::int32_lane_t*)&value)[Size - i - 1];
             }
         }
         unused(Aligned);
 #endif
     }
 
-    FASTOR_INLINE int32_t operator[](FASTOR_INDEX i) const {return reinterpret_cast<const int32_t*>(&value)[i];}
-    FASTOR_INLINE int32_t operator()(FASTOR_INDEX i) const {return reinterpret_cast<const int32_t*>(&value)[i];}
+    FASTOR_INLINE int32_t operator[](FASTOR_INDEX i) const {return reinterpret_cast<const internal::int32_lane_t*>(&value)[i];}
+    FASTOR_INLINE int32_t operator()(FASTOR_INDEX i) const {return reinterpret_cast<const internal::int32_lane_t*>(&value)[i];}
 
     FASTOR_INLINE void set(int32_t num) {
         value = _mm256_set1_epi32(num);
@@ -519,7 +531,7 @@ struct SIMDVector<int32_t,simd_abi::avx> {
     }
 
     FASTOR_INLINE int32_t minimum() {
-        int32_t *vals = (int32_t*)&value;
+        const internal::int32_lane_t *vals = (const internal::int32_lane_t*)&value;
         int32_t quan = vals[0];
         for (FASTOR_INDEX i=0; i<Size; ++i)
             if (vals[i]<quan)
@@ -527,7 +539,7 @@ struct SIMDVector<int32_t,simd_abi::avx> {
         return quan;
     }
     FASTOR_INLINE int32_t maximum() {
-        int32_t *vals = (int32_t*)&value;
+        const internal::int32_lane_t *vals = (const internal::int32_lane_t*)&value;
         int32_t quan = vals[0];
         for (FASTOR_INDEX i=0; i<Size; ++i)
             if (vals[i]>quan)
@@ -741,7 +753,7 @@ struct SIMDVector<int32_t,simd_abi::sse> {
         value = _mm_setzero_si128();
         for (FASTOR_INDEX i=0; i<Size; ++i) {
             if (maska[i] == -1) {
-                ((scalar_value_type*)&value)[Size - i - 1] = a[Size - i - 1];
+                ((internal::int32_lane_t*)&value)[Size - i - 1] = a[Size - i - 1];
             }
         }
         unused(Aligned);
@@ -759,15 +771,15 @@ struct SIMDVector<int32_t,simd_abi::sse> {
         mask_to_array(mask,maska);
         for (FASTOR_INDEX i=0; i<Size; ++i) {
             if (maska[i] == -1) {
-                a[Size - i - 1] = ((const scalar_value_type*)&value)[Size - i - 1];
+                a[Size - i - 1] = ((const internal::int32_lane_t*)&value)[Size - i - 1];
             }
         }
         unused(Aligned);
 #endif
     }
 
-    FASTOR_INLINE int32_t operator[](FASTOR_INDEX i) const {return reinterpret_cast<const int32_t*>(&value)[i];}
-    FASTOR_INLINE int32_t operator()(FASTOR_INDEX i) const {return reinterpret_cast<const int32_t*>(&value)[i];}
+    FASTOR_INLINE int32_t operator[](FASTOR_INDEX i) const {return reinterpret_cast<const internal::int32_lane_t*>(&value)[i];}
+    FASTOR_INLINE int32_t operator()(FASTOR_INDEX i) const {return reinterpret_cast<const internal::int32_lane_t*>(&value)[i];}
 
     FASTOR_INLINE void set(int32_t num) {
         value = _mm_set1_epi32(num);
@@ -836,7 +848,7 @@ struct SIMDVector<int32_t,simd_abi::sse> {
     }
 
     FASTOR_INLINE int32_t minimum() {
-        int32_t *vals = (int32_t*)&value;
+        const internal::int32_lane_t *vals = (const internal::int32_lane_t*)&value;
         int32_t quan = vals[0];
         for (FASTOR_INDEX i=0; i<Size; ++i)
             if (vals[i]<quan)
@@ -844,7 +856,7 @@ struct SIMDVector<int32_t,simd_abi::sse> {
         return quan;
     }
     FASTOR_INLINE int32_t maximum() {
-        int32_t *vals = (int32_t*)&value;
+        const internal::int32_lane_t *vals = (const internal::int32_lane_t*)&value;
         int32_t quan = vals[0];
         for (FASTOR_INDEX i=0; i<Size; ++i)
             if (vals[i]>quan)
